@@ -13,6 +13,8 @@ import (
 	"time"
 )
 
+var vacuityAudit bool
+
 var symRe = regexp.MustCompile(`\|[^|]+\|`)
 
 // Query builds the SMT-LIB text of the obligation: prelude, the cone of
@@ -144,6 +146,16 @@ func dischargeAll(obls []*Obligation, timeoutS, seed int, cross bool, workers in
 			}
 			r = solveObligation(o, timeoutS, seed, cross)
 			res[i] = OblResult{O: o, R: r, OK: r.Status == o.Expect}
+			// Functions verified under assumed callee preconditions: a discharged
+			// postcondition only counts if its path condition is not itself refutable
+			// (otherwise the "proof" is vacuous).
+			if res[i].OK && o.Kind == "post" && o.fe.root().c != nil && (o.fe.root().c.AssumePre || vacuityAudit) {
+				vr := solve(o.queryFor(o.PC, "false"), 3, seed, false)
+				if vr.Status == "unsat" {
+					res[i].OK = false
+					res[i].R = SolveResult{Status: "vacuous", Solver: vr.Solver, Seconds: r.Seconds + vr.Seconds, Output: "the path condition of this obligation is contradictory (assumed callee preconditions or trusted postconditions conflict): the proof would be vacuous"}
+				}
+			}
 		}(i, o)
 	}
 	wg.Wait()
@@ -210,6 +222,7 @@ func cmdVerify(mode string, args []string) {
 	timeout := fs.Int("timeout", 10, "solver timeout (s)")
 	verbose := fs.Bool("v", false, "verbose")
 	showFail := fs.Bool("fail", true, "print failing obligations")
+	vacAudit := fs.Bool("vacuity", false, "also try to refute the path condition of every discharged postcondition (vacuous proofs)")
 	fs.Parse(args)
 	t0 := time.Now()
 	eng := newEngine(*repo, *verif)
@@ -278,6 +291,7 @@ func cmdVerify(mode string, args []string) {
 		}
 		return
 	}
+	vacuityAudit = *vacAudit
 	res := dischargeAll(all, *timeout, 0, false, runtime.NumCPU()-2)
 	ok := 0
 	var solverTime float64
